@@ -9,7 +9,8 @@ depth through non-pointer and pointer fields, with amino's zero-value omission.
 `wf env d td v` — the value `v` fits descriptor `td`; `d` bounds the struct
 nesting depth (needed because the decoder's zero values come from a fuelled
 walk of the environment).  Lists: packed lists of non-ByteLength primitives,
-unpacked lists of strings / byte slices / byte arrays / structs / struct pointers.
+unpacked lists of strings / byte slices / byte arrays / structs / struct pointers /
+interfaces.  Interfaces (google.protobuf.Any) hold registered STRUCT types.
 -/
 namespace GnoVerif.C20
 
@@ -40,6 +41,16 @@ def isListTD : TD → Bool
   | .list _ _ _ => true
   | _ => false
 
+def isIfaceTD : TD → Bool
+  | .iface _ => true
+  | _ => false
+
+/-- a registered name usable in a type URL: printable ASCII without '/', so that
+`"/" ++ name` passes `IsASCIIText` and `typeURLtoFullname` gives the name back. -/
+def nameOK (name : Bytes) : Bool :=
+  name.all (fun b => decide (32 ≤ b.toNat) && decide (b.toNat ≤ 126) && b != 47) &&
+    decide (name.length + 1 < 2 ^ 64)
+
 /-- element descriptors of PACKED lists: primitives whose typ3 is not ByteLength
 (and not the raw-byte element case). -/
 def isPackedElem : TD → Bool
@@ -55,7 +66,7 @@ def isBLElemPrim : TD → Bool
 /-- list element descriptors of the fragment: packed primitives, ByteLength
 primitives, or structs (the only ones that may be pointers). -/
 def listElemOK (env : Env) (ptr : Bool) (e : TD) : Bool :=
-  ((isPackedElem e || isBLElemPrim e) && !ptr) || (isRefTD e && isStructKind env e)
+  ((isPackedElem e || isBLElemPrim e || isIfaceTD e) && !ptr) || (isRefTD e && isStructKind env e)
 
 mutual
 /-- `v` is a value of descriptor `td` inside the proved fragment. -/
@@ -79,6 +90,17 @@ def wf (env : Env) (d : Nat) (td : TD) (v : Val) : Bool :=
     match td with
     | .list ptr ne e => !ne && listElemOK env ptr e && wfElems env d e vs
     | _ => false
+  | .nil =>
+    match td with
+    | .iface _ => d != 0   -- nil interface (a decoder visit costs one Any level)
+    | _ => false
+  | .any name cv =>
+    match td with
+    | .iface id =>
+      match env.find? name with
+      | some ⟨_, ifs, .struct _ _⟩ => ifs.contains id && nameOK name && wf env d (.ref name) cv
+      | _ => false
+    | _ => false
   | _ => false
 /-- list elements (never nil in the fragment). -/
 def wfElems (env : Env) (d : Nat) (e : TD) (vs : List Val) : Bool :=
@@ -94,7 +116,7 @@ def wfFields (env : Env) (d : Nat) (fs : List FieldD) (vs : List Val) : Bool :=
     (!f.writeEmpty &&
       (if f.ptr then isRefTD f.td && isStructKind env f.td &&
           (match v with | .nil => true | _ => wf env d f.td v)
-       else (isPrimTD f.td || isRefTD f.td || isListTD f.td) && wf env d f.td v)) &&
+       else (isPrimTD f.td || isRefTD f.td || isListTD f.td || isIfaceTD f.td) && wf env d f.td v)) &&
     wfFields env d fs' vs'
   | _, _ => false
 end
